@@ -512,10 +512,14 @@ where
 
     match f(state) {
         Ok(state) => {
+            #[cfg(pest_parser_pest_verif)]
+            crate::verif::record(state.verif_final_view(true));
             let len = state.queue.len();
             Ok(new(Rc::new(state.queue), input, None, 0, len))
         }
         Err(mut state) => {
+            #[cfg(pest_parser_pest_verif)]
+            crate::verif::record(state.verif_final_view(false));
             let variant = if state.reached_call_limit() {
                 ErrorVariant::CustomError {
                     message: "call limit reached".to_owned(),
@@ -571,6 +575,22 @@ impl<'i, R: RuleType> ParserState<'i, R> {
             call_tracker: Default::default(),
             parse_attempts: ParseAttempts::new(),
         })
+    }
+
+    /// Read-only projection of the state for the conformance harness.
+    #[cfg(pest_parser_pest_verif)]
+    pub fn verif_final_view(&self, ok: bool) -> crate::verif::FinalView {
+        crate::verif::FinalView {
+            ok,
+            pos: self.position.pos(),
+            stack: self.stack[0..self.stack.len()]
+                .iter()
+                .map(|s| s.as_borrowed_or_rc().as_str().to_owned())
+                .collect(),
+            calls: self.call_tracker.current_call_limit.map_or(0, |(c, _)| c),
+            limit_reached: self.call_tracker.limit_reached(),
+            attempt_pos: self.attempt_pos,
+        }
     }
 
     /// Get all parse attempts after process of parsing is finished.
